@@ -263,11 +263,157 @@ func c45Configs(nodes int) []c45Cfg {
 	return out
 }
 
+// ---- large-ring slice: production-sized tables (>= ~1000 virtual nodes) -----------------------------
+
+type c45LargeCfg struct{ Replicas, Probes, Nodes int }
+
+type c45Op struct {
+	Op string // nop | ins | rem
+	K  string
+	V  int
+}
+
+func (o c45Op) String() string { return fmt.Sprintf("%s:%s:%d", o.Op, o.K, o.V) }
+
+// c45LargeRun builds the ring (members m00.. inserted, optional warm-up Lookup), then applies batches of membership
+// operations, each batch followed by Lookups of every key; every answer must equal a ring built fresh from the live set.
+func c45LargeRun(c *vk.Ctx, g c45LargeCfg, warm bool, batches [][]c45Op, keys []string) (lookups int64) {
+	r := hashring.New[string](hashring.WithReplicas(g.Replicas), hashring.WithProbes(g.Probes))
+	live := map[string]string{}
+	for i := 0; i < g.Nodes; i++ {
+		k := fmt.Sprintf("m%02d", i)
+		r.Insert(k, c45Val(k, 1))
+		live[k] = c45Val(k, 1)
+	}
+	if warm {
+		r.Lookup("warmup")
+	}
+	for bi, b := range batches {
+		for _, o := range b {
+			switch o.Op {
+			case "ins":
+				r.Insert(o.K, c45Val(o.K, o.V))
+				live[o.K] = c45Val(o.K, o.V)
+			case "rem":
+				r.Remove(o.K)
+				delete(live, o.K)
+			}
+		}
+		// fresh rings over the live set, sorted and reversed insertion order
+		names := make([]string, 0, len(live))
+		for k := range live {
+			names = append(names, k)
+		}
+		sort.Strings(names)
+		f1 := hashring.New[string](hashring.WithReplicas(g.Replicas), hashring.WithProbes(g.Probes))
+		f2 := hashring.New[string](hashring.WithReplicas(g.Replicas), hashring.WithProbes(g.Probes))
+		for i := range names {
+			f1.Insert(names[i], live[names[i]])
+			f2.Insert(names[len(names)-1-i], live[names[len(names)-1-i]])
+		}
+		detail := func(msg string) map[string]any {
+			var hs [][]string
+			for _, bb := range batches[:bi+1] {
+				var h []string
+				for _, o := range bb {
+					h = append(h, o.String())
+				}
+				hs = append(hs, h)
+			}
+			return map[string]any{"large_ring": fmt.Sprintf("replicas=%d probes=%d members=%d warmup=%v", g.Replicas, g.Probes, g.Nodes, warm), "batches": hs, "msg": msg}
+		}
+		if r.Len() != len(live) {
+			c.Violation("C45:large-ring:len", detail(fmt.Sprintf("Len()=%d want %d", r.Len(), len(live))))
+		}
+		bad, first := 0, ""
+		for _, k := range keys {
+			got, ok := r.Lookup(k)
+			w1, ok1 := f1.Lookup(k)
+			w2, ok2 := f2.Lookup(k)
+			lookups++
+			if ok != ok1 || ok != ok2 || got != w1 || got != w2 {
+				if bad == 0 {
+					first = fmt.Sprintf("Lookup(%s)=%q,%v but rings built fresh from the same %d members elect %q / %q", k, got, ok, len(live), w1, w2)
+				}
+				bad++
+			} else if ok && live[strings.SplitN(got, "#", 2)[0]] != got {
+				c.Violation("C45:large-ring:owner-not-a-current-member", detail(fmt.Sprintf("Lookup(%s)=%q", k, got)))
+			}
+		}
+		if bad > 0 {
+			c.Violation("C45:large-ring:history-dependent-owner", detail(fmt.Sprintf("%d of %d keys: %s", bad, len(keys), first)))
+			c.Outcome("large ring: owner differs from fresh ring")
+			return
+		}
+		c.Outcome(fmt.Sprintf("large ring: batch %d agrees with fresh ring", bi))
+	}
+	return
+}
+
+func c45Large(c *vk.Ctx) {
+	cfgs := []c45LargeCfg{{100, 1, 11}, {100, 1, 12}, {128, 2, 8}, {100, 3, 10}, {10, 10, 110}}
+	if c.Quick() {
+		cfgs = cfgs[:4]
+	}
+	var keys []string
+	for i := 0; i < c.Pick(48, 256); i++ {
+		keys = append(keys, fmt.Sprintf("10.%d.%d.%d", i%7, i/16, i*37%256))
+	}
+	var runs, lookups int64
+	for _, g := range cfgs {
+		// full alphabet: remove any member, insert either of two newcomers, re-insert a member with a new value
+		full := []c45Op{{Op: "nop"}, {Op: "ins", K: "x1", V: 1}, {Op: "ins", K: "x2", V: 1}, {Op: "ins", K: "m00", V: 2}, {Op: "rem", K: "x1"}}
+		for i := 0; i < g.Nodes; i++ {
+			if g.Nodes > 16 && i%10 != 3 {
+				continue
+			}
+			full = append(full, c45Op{Op: "rem", K: fmt.Sprintf("m%02d", i)})
+		}
+		small := []c45Op{{Op: "nop"}, {Op: "ins", K: "x1", V: 1}, {Op: "ins", K: "x2", V: 1}, {Op: "rem", K: "m03"}, {Op: "rem", K: fmt.Sprintf("m%02d", g.Nodes-1)}, {Op: "rem", K: "x1"}, {Op: "ins", K: "m03", V: 2}}
+		for _, warm := range []bool{true, false} {
+			// one batch of every single and every ordered pair of operations between two rounds of Lookups
+			for _, a := range full {
+				for _, b := range full {
+					if c.Expired() {
+						c.Capped("deadline during the large-ring slice")
+						return
+					}
+					lookups += c45LargeRun(c, g, warm, [][]c45Op{{a, b}}, keys)
+					runs++
+				}
+			}
+			// two consecutive batches (pairs from a reduced alphabet), Lookups after each
+			for _, a := range small {
+				for _, b := range small {
+					for _, a2 := range small {
+						for _, b2 := range small {
+							if c.Quick() && (a2.Op == "nop" || b.Op == "nop") {
+								continue // quick: skip the combinations already covered by shorter histories
+							}
+							if c.Expired() {
+								c.Capped("deadline during the large-ring slice")
+								return
+							}
+							lookups += c45LargeRun(c, g, warm, [][]c45Op{{a, b}, {a2, b2}}, keys)
+							runs++
+						}
+					}
+				}
+			}
+		}
+	}
+	c.Add("states", runs)
+	c.Add("transitions", lookups)
+	c.Extra("large_ring_histories", runs)
+	fmt.Printf("enum ring large-ring slice: %d configs, %d histories, %d lookups compared with fresh rings\n", len(cfgs), runs, lookups)
+}
+
 func TestVerif_C45(t *testing.T) {
 	vk.Run(t, "C45", func(c *vk.Ctx) {
 		c.Rule("states = (member -> value, pending-removal set, members with virtual nodes in the table, sorted flag, last event-Lookup result) of the real hashring.Ring[string] " +
 			"for each of 36 configurations (replicas 1-3 x probes 1-3 x hash real/folded-to-4-values/constant/wrap-around); transitions = one real Insert (2 value versions) / Remove (incl. absent member) / Lookup " +
-			"over members n1..n4 and keys k1..k3, replayed on a fresh ring; non-trivial = >=2 live members with removals pending or unsorted inserts; oracle = fresh ring from the live set (sorted and reversed insertion order)")
+			"over members n1..n4 and keys k1..k3, replayed on a fresh ring; non-trivial = >=2 live members with removals pending or unsorted inserts; oracle = fresh ring from the live set (sorted and reversed insertion order); " +
+			"large-ring slice (real XXH3, replicas 100/128, 8-12 members = 1000-1200 virtual nodes, with and without warm-up Lookup): every single and every ordered pair of membership operations (remove any member, insert newcomers, re-insert with a new value) applied between Lookups, and every two consecutive such batches from a 7-operation alphabet, each followed by Lookups of a fixed key set compared with fresh rings")
 		c.Assume("graph-mode key is a black-box shadow of the ring's hidden bookkeeping; tree mode (no merging) is run as well and does not rely on it")
 		if rf := c.ReplayFile(); rf != "" {
 			var d struct {
@@ -330,5 +476,6 @@ func TestVerif_C45(t *testing.T) {
 			tt += st.Transitions
 		}
 		fmt.Printf("hbfs ring tree mode depth %d: states=%d transitions=%d\n", td, ts, tt)
+		c45Large(c)
 	})
 }
